@@ -359,7 +359,10 @@ pub fn run_c13(tier: Tier) -> i32 {
     for g in ["comment-lines", "crlf", "no-optional-whitespace", "several-members", "mutant-must-be-rejected", "mutant-still-valid", "token-string-must-be-rejected"] {
         rep.require_goal(g);
     }
-    let cfg = Config { max_wall: std::time::Duration::from_secs(tier.pick(60, 1800)), ..Default::default() };
+    // (the thorough tier runs hundreds of millions of distinct descriptions: the sets of distinct states /
+    // outcomes are capped there - the counts become lower bounds, which the evidence says - so that
+    // they do not take tens of gigabytes)
+    let cfg = Config { max_wall: std::time::Duration::from_secs(tier.pick(60, 1800)), set_cap: tier.pick(40_000_000, 3_000_000), ..Default::default() };
     let all = LAYOUTS.to_vec();
     let g = |max_members, max_fields, type_budget, comments, layouts: &[Layout], iface_names| Gen { max_members, max_fields, type_budget, comments, variant_comments: comments == 1, layouts: layouts.to_vec(), iface_names, rotate: false, wide: false };
     let four = [Layout::Minimal, Layout::Spaced, Layout::NewlinesTabs, Layout::Crlf];
@@ -605,7 +608,10 @@ pub fn run_c14(tier: Tier) -> i32 {
     for g in ["description-with-comments", "enum-with-commented-variant", "empty-member-list", "long-member-list"] {
         rep.require_goal(g);
     }
-    let cfg = Config { max_wall: std::time::Duration::from_secs(tier.pick(60, 1800)), ..Default::default() };
+    // (the thorough tier runs hundreds of millions of distinct descriptions: the sets of distinct states /
+    // outcomes are capped there - the counts become lower bounds, which the evidence says - so that
+    // they do not take tens of gigabytes)
+    let cfg = Config { max_wall: std::time::Duration::from_secs(tier.pick(60, 1800)), set_cap: tier.pick(40_000_000, 3_000_000), ..Default::default() };
     let g = |max_members, max_fields, type_budget, comments, iface_names| Gen { max_members, max_fields, type_budget, comments, variant_comments: comments == 1, layouts: vec![if comments == 1 { Layout::Lines } else { Layout::Spaced }], iface_names, rotate: false, wide: false };
     let plan: Vec<(&str, RoundTrip)> = match tier {
         Tier::Quick => vec![
